@@ -4,8 +4,10 @@ import (
 	"bytes"
 	"context"
 	"crypto/tls"
+	"errors"
 	"fmt"
 	"hash/fnv"
+	"io"
 	"net"
 	"sort"
 	"sync"
@@ -660,6 +662,86 @@ func TestC19(t *testing.T) {
 				c.Fail(ev.Sig{"op": "per-stream-order", "how": "interrupted-read"}, nil, nil, "a read of the association failed once with a temporary error between two messages; the association was kept open, but only %d of the 4 messages (streams %d, %d, %d) were delivered", n, s1, s2, s3)
 			}
 			assoc.FeedEOF()
+			conn.Close()
+			synctest.Wait()
+			c.Event("merges", 1)
+		})
+		if leak != "" && !c.Failed() {
+			c.Fail(ev.Sig{"op": "bubble-leak"}, nil, nil, "goroutines left blocked: %s", leak)
+		}
+	})
+	// the end of the association is reported together with its last bytes (a read may return
+	// n > 0 and io.EOF, or another error, from one call): what was received before the end was
+	// received - the last message, if complete, is delivered and answered like the others
+	rec.Suite("last-bytes-with-the-end-of-the-association", rec.N(48, 2000), func(c *ev.Case) {
+		lastBody := []int{0, 0, 12, 100}[c.I%4] // header-only messages too
+		withEOF := (c.I/4)%2 == 0
+		split := (c.I / 8) % 3 // 0 the last message alone in its chunk, 1 glued to the end of the one before, 2 its last bytes alone
+		c.Class("last-bytes-with-end/body=%d/eof=%v/split=%d", lastBody, withEOF, split)
+		leak := runBubbleWD(t, rec, c, 60*time.Second, func() {
+			assoc := sctpmem.New()
+			msc := diam.VerifNewSCTPConn(assoc)
+			defer diam.VerifRelease(msc)
+			var mu sync.Mutex
+			var seen []uint32
+			conn, err := diam.NewConn(msc, "peer", diam.HandlerFunc(func(dc diam.Conn, m *diam.Message) {
+				mu.Lock()
+				seen = append(seen, m.Header.HopByHopID)
+				mu.Unlock()
+				m.Answer(2001).WriteTo(dc)
+			}), ctx.Parser)
+			if err != nil {
+				c.Fail(ev.Sig{"op": "setup"}, nil, nil, "NewConn: %v", err)
+				return
+			}
+			s1, s2 := uint16(1+c.R.IntN(5)), uint16(6+c.R.IntN(5))
+			a := seqMsg(uint32(s1)<<16|1, 100)
+			b := seqMsg(uint32(s2)<<16|1, 12)
+			last := seqMsg(uint32(s1)<<16|2, lastBody)
+			cut := 20 + c.R.IntN(len(a)-20)
+			assoc.Feed(s1, a[:cut])
+			assoc.Feed(s2, b)
+			var end error = io.EOF
+			if !withEOF {
+				end = errors.New("connection reset by peer")
+			}
+			switch split {
+			case 0:
+				assoc.Feed(s1, a[cut:])
+				assoc.FeedWithErr(s1, last, end)
+			case 1:
+				assoc.FeedWithErr(s1, append(append([]byte{}, a[cut:]...), last...), end)
+			case 2:
+				k := 1 + c.R.IntN(len(last)-1)
+				assoc.Feed(s1, append(append([]byte{}, a[cut:]...), last[:k]...))
+				assoc.FeedWithErr(s1, last[k:], end)
+			}
+			synctest.Wait()
+			mu.Lock()
+			got := append([]uint32(nil), seen...)
+			mu.Unlock()
+			want := []uint32{uint32(s1)<<16 | 1, uint32(s2)<<16 | 1, uint32(s1)<<16 | 2}
+			// per stream: s1's two messages in order; s2's one
+			var g1, g2 []uint32
+			for _, id := range got {
+				if uint16(id>>16) == s1 {
+					g1 = append(g1, id)
+				} else {
+					g2 = append(g2, id)
+				}
+			}
+			if len(g1) != 2 || g1[0] != want[0] || g1[1] != want[2] || len(g2) != 1 || g2[0] != want[1] {
+				c.Fail(ev.Sig{"op": "per-stream-order", "how": "last-bytes-with-end"}, last, nil, "the association's last read handed over the final bytes of a complete message (%d-byte body, stream %d) together with %q: delivered %x, expected the messages %x (all of them were completely received)", lastBody, s1, end.Error(), got, want)
+			} else {
+				// each request answered on its stream
+				ans := map[uint16]int{}
+				for _, w := range assoc.Writes() {
+					ans[w.Stream]++
+				}
+				if ans[s1] != 2 || ans[s2] != 1 {
+					c.Fail(ev.Sig{"op": "reply-stream", "how": "last-bytes-with-end"}, nil, nil, "answers written per stream %v, expected 2 on stream %d and 1 on stream %d", ans, s1, s2)
+				}
+			}
 			conn.Close()
 			synctest.Wait()
 			c.Event("merges", 1)
